@@ -34,7 +34,7 @@ func runC01(c *Ctx) {
 
 	// ---- R-C01-CONFLICT
 	type lm struct {
-		name          string
+		name           string
 		keyPat, incPat string
 	}
 	for _, f := range []lm{
@@ -114,10 +114,10 @@ func runC01(c *Ctx) {
 	c.Group("R-C01-CONFLICT", "data-readers", func() {
 		allowed := map[string]string{
 			"lockedMap.get": "checked", "lockedMap.Set": "checked", "lockedMap.Update": "checked", "lockedMap.Del": "checked",
-			"lockedMap.Expiration":  "yields only a time (C07)",
-			"lockedMap.Clear":       "whole-map drain",
+			"lockedMap.Expiration":    "yields only a time (C07)",
+			"lockedMap.Clear":         "whole-map drain",
 			"shardedMap.IterValues$1": "enumeration, no key in scope",
-			"newLockedMap":          "constructor",
+			"newLockedMap":            "constructor",
 		}
 		for _, fn := range P.SrcFuncs {
 			if fn.Pkg != P.Pkgs["ristretto"] {
